@@ -42,6 +42,7 @@ impl<T: FileStore> SendTransaction<T> {
         &&& self.ack == o.ack && self.prompt == o.prompt && self.naks == o.naks && self.eof == o.eof
         &&& self.sent_file_size == o.sent_file_size && self.received_file_size == o.received_file_size
         &&& self.metadata == o.metadata && self.send_eof_indication == o.send_eof_indication && self.header == o.header
+        &&& self.file_handle == o.file_handle && self.checksum == o.checksum
     }
 }
 
@@ -90,6 +91,11 @@ pub fn vx_seek_start(h: &mut File, offset: u64) -> (r: TransactionResult<u64>)
     unimplemented!()
 }
 
+/// the at most `n` bytes of `b` from offset `off` on (nothing beyond the end of the file)
+pub open spec fn file_slice(b: Seq<u8>, off: int, n: int) -> Seq<u8> {
+    b.subrange(if off <= b.len() { off } else { b.len() as int }, if off + n <= b.len() { off + n } else { b.len() as int })
+}
+
 /// std: Read::take(n).read_to_end(buf) on a file: reads until n bytes or end of file, from the cursor, and advances it
 #[verifier::external_body]
 pub fn vx_read_up_to(h: &mut File, n: u16) -> (r: TransactionResult<Vec<u8>>)
@@ -99,12 +105,41 @@ pub fn vx_read_up_to(h: &mut File, n: u16) -> (r: TransactionResult<Vec<u8>>)
             &&& d@.len() <= n
             &&& file_pos(*old(h)) + d@.len() <= u64::MAX
             &&& file_pos(*final(h)) == file_pos(*old(h)) + d@.len()
-            &&& d@ == file_bytes(*old(h)).subrange(
-                    if file_pos(*old(h)) <= file_bytes(*old(h)).len() { file_pos(*old(h)) } else { file_bytes(*old(h)).len() as int },
-                    if file_pos(*old(h)) + n <= file_bytes(*old(h)).len() { file_pos(*old(h)) + n } else if file_pos(*old(h)) <= file_bytes(*old(h)).len() { file_bytes(*old(h)).len() as int } else { file_bytes(*old(h)).len() as int })
+            &&& d@ == file_slice(file_bytes(*old(h)), file_pos(*old(h)), n as int)
         },
 {
     unimplemented!()
+}
+
+// (declared after the impl block in source order; Verus does not care)
+pub open spec fn emit_start<T: FileStore>(t: SendTransaction<T>, offset: Option<u64>) -> int {
+    match offset { Some(o) => o as int, None => t.cursor() }
+}
+pub open spec fn emit_len<T: FileStore>(t: SendTransaction<T>, length: Option<u16>) -> int {
+    match length { Some(l) => l as int, None => t.config.file_size_segment as int }
+}
+
+/// content of the source file named in the metadata as the filestore will hand it out when the sender opens it
+pub uninterp spec fn unopened_bytes(m: Metadata) -> Seq<u8>;
+
+impl<T: FileStore> SendTransaction<T> {
+    /// read position in the source file (a file not opened yet will be opened at position 0)
+    pub open spec fn cursor(&self) -> int {
+        if self.file_handle is Some { file_pos(self.file_handle.unwrap()) } else { 0 }
+    }
+    /// the bytes of the source file
+    pub open spec fn src(&self) -> Seq<u8> {
+        if self.file_handle is Some { file_bytes(self.file_handle.unwrap()) } else { unopened_bytes(self.metadata) }
+    }
+    /// neither the source file handle (content, cursor) nor the metadata naming the source file changed
+    pub open spec fn file_untouched(&self, o: Self) -> bool {
+        self.file_handle == o.file_handle && self.metadata == o.metadata
+    }
+    /// C07 first pass: until the EOF is prepared the read position IS the progress figure, i.e. everything below the cursor has been
+    /// transmitted once, in order, and nothing above it has been transmitted in the first pass
+    pub open spec fn first_pass_inv(&self) -> bool {
+        (self.send_state == SendState::SendMetadata || self.send_state == SendState::SendData) ==> self.cursor() == self.sent_file_size
+    }
 }
 
 // ---- C07 vocabulary
@@ -142,6 +177,7 @@ impl<T: FileStore> SendTransaction<T> {
         &&& self.ack == o.ack && self.prompt == o.prompt && self.naks == o.naks && self.eof == o.eof
         &&& self.sent_file_size == o.sent_file_size && self.received_file_size == o.received_file_size
         &&& self.metadata == o.metadata && self.send_eof_indication == o.send_eof_indication
+        &&& self.file_handle == o.file_handle
     }
 }
 
@@ -151,6 +187,7 @@ impl<T: FileStore> SendTransaction<T> {
         &&& self.timer == o.timer && self.condition == o.condition && self.config == o.config
         &&& self.prompt == o.prompt && self.naks == o.naks && self.eof == o.eof && self.header == o.header
         &&& self.sent_file_size == o.sent_file_size && self.metadata == o.metadata
+        &&& self.file_handle == o.file_handle
     }
 }
 
@@ -192,5 +229,6 @@ impl<T: FileStore> SendTransaction<T> {
         &&& self.ack == o.ack && self.prompt == o.prompt && self.eof == o.eof && self.header == o.header
         &&& self.sent_file_size == o.sent_file_size && self.received_file_size == o.received_file_size
         &&& self.metadata == o.metadata && self.send_eof_indication == o.send_eof_indication
+        &&& self.file_handle == o.file_handle
     }
 }
